@@ -177,6 +177,32 @@ def unknownOptionNumber (fid : String) : Option Nat :=
 
 def nibble (v : Nat) : ABuf := ABuf.ofBytes [v] 4 .left
 
+/-- the option number a semantic field id stands for (known name, else `OPTION_UNKNOWN(n)`) -/
+def optionNumber (fid : String) (lastNumber : Option Nat) : Py Nat :=
+  match Gen.coapNameToNumber.find? (·.1 == fid) with
+  | some (_, n) => pure n
+  | none => match unknownOptionNumber fid with
+    | some n => pure n
+    | none => if lastNumber.isNone then throw .unboundLocal else throw .unparserError
+
+/-- the extended delta / length field for a delta / length `x` (`to_bytes(2, 'big')` overflows from 269 + 65536) -/
+def extField (fid : String) (x : Nat) : Py (List (String × ABuf)) :=
+  if x > 12 ∧ x < 269 then pure [(fid, ABuf.ofNat 8 (x - 13))]
+  else if x > 268 then
+    if x - 269 ≥ 65536 then throw .overflowError
+    else pure [(fid, ABuf.ofNat 16 (x - 269))]
+  else pure []
+
+def nibbleOf (x : Nat) : Nat := if x < 13 then x else if x < 269 then 13 else 14
+
+/-- the syntactic fields one semantic option field re-encodes to -/
+def encodeOption (delta : Nat) (v : ABuf) : Py (List (String × ABuf)) := do
+  let l := v.length / 8
+  let dExt ← extField Gen.CoAPF.OPTION_DELTA_EXTENDED delta
+  let lExt ← extField Gen.CoAPF.OPTION_LENGTH_EXTENDED l
+  pure ([(Gen.CoAPF.OPTION_DELTA, nibble (nibbleOf delta)), (Gen.CoAPF.OPTION_LENGTH, nibble (nibbleOf l))]
+    ++ dExt ++ lExt ++ (if v.length > 0 then [(Gen.CoAPF.OPTION_VALUE, v)] else []))
+
 def coapUnparseSemantic : List (String × ABuf) → Option Nat → Nat → Py (List (String × ABuf))
   | [], _, _ => pure []
   | (fid, v) :: rest, lastNumber, prev => do
@@ -184,26 +210,9 @@ def coapUnparseSemantic : List (String × ABuf) → Option Nat → Nat → Py (L
       let r ← coapUnparseSemantic rest lastNumber prev
       pure ((fid, v) :: r)
     else
-      let number ← match Gen.coapNameToNumber.find? (·.1 == fid) with
-        | some (_, n) => pure n
-        | none => match unknownOptionNumber fid with
-          | some n => pure n
-          | none => if lastNumber.isNone then throw .unboundLocal else throw .unparserError
+      let number ← optionNumber fid lastNumber
       if number < prev then throw .unmodelled
-      let delta := number - prev
-      let l := v.length / 8
-      let mut out : List (String × ABuf) := []
-      out := out ++ [(Gen.CoAPF.OPTION_DELTA, nibble (if delta < 13 then delta else if delta < 269 then 13 else 14))]
-      out := out ++ [(Gen.CoAPF.OPTION_LENGTH, nibble (if l < 13 then l else if l < 269 then 13 else 14))]
-      if delta > 12 ∧ delta < 269 then out := out ++ [(Gen.CoAPF.OPTION_DELTA_EXTENDED, ABuf.ofNat 8 (delta - 13))]
-      else if delta > 268 then
-        if delta - 269 ≥ 65536 then throw .overflowError
-        out := out ++ [(Gen.CoAPF.OPTION_DELTA_EXTENDED, ABuf.ofNat 16 (delta - 269))]
-      if l > 12 ∧ l < 269 then out := out ++ [(Gen.CoAPF.OPTION_LENGTH_EXTENDED, ABuf.ofNat 8 (l - 13))]
-      else if l > 268 then
-        if l - 269 ≥ 65536 then throw .overflowError
-        out := out ++ [(Gen.CoAPF.OPTION_LENGTH_EXTENDED, ABuf.ofNat 16 (l - 269))]
-      if v.length > 0 then out := out ++ [(Gen.CoAPF.OPTION_VALUE, v)]
+      let out ← encodeOption (number - prev) v
       let r ← coapUnparseSemantic rest (some number) number
       pure (out ++ r)
 
